@@ -408,6 +408,18 @@ def handle (j : Json) : Except String Json := do
         ("v931", hasNoUtcOffset w), ("strom", isStromtagLimit w), ("gas", isGastagLimit w)])
     | .invalid => pure (Json.mkObj [("r", "invalid")])
     | .unmodelled => pure (Json.mkObj [("r", "unmodelled")])
+  | "write" =>
+    let t ← j.getObjValAs? Int "t"
+    let off ← j.getObjValAs? Int "off"
+    let sep := ((← getStr j "sep").toList.head?).getD 'T'
+    let st ← match (← getStr j "st") with
+      | "zulu" => pure OffStyle.zulu
+      | "short" => pure OffStyle.short
+      | "long" => pure OffStyle.long
+      | "negzero" => pure OffStyle.negZero
+      | other => throw s!"unknown style {other}"
+    let w := writeInstant t off
+    pure (Json.mkObj [("s", Json.str (String.ofList (renderIso sep st w))), ("fits", styleFits st off), ("valid", w.valid)])
   | "roundtrip" =>
     let cls ← getStr j "cls"
     let w ← jOfWire (← j.getObjVal? "json")
